@@ -218,6 +218,8 @@ func degenerate() []*big.Int {
 func execAttack(w *world.World, s Step) bool {
 	p := w.P[s.P]
 	switch s.A {
+	case "Attack":
+		return execModelAttack(w, s)
 	case "TamperAll":
 		// copies of the message at the head of p's queue, each tampered in one way, are delivered
 		// before the genuine one; their replies go nowhere
